@@ -126,6 +126,46 @@ func runC13(c *fw.Ctx) {
 		if r.Intn(2) == 0 {
 			via = "RollbackTrie"
 		}
+		// the checkpoint's content was saved once before: SaveRoot there, a committed detour, garbage collection of what
+		// only the earlier state used, and a committed return to exactly that content (same root hash and weight as saved)
+		if len(m) > 0 && r.Intn(6) == 0 {
+			a := m.Copy()
+			c.Tracef("SaveRoot (earlier visit of the checkpoint's content)")
+			t.SaveRoot()
+			if !mutate(1+r.Intn(5), true) || !commit(lvl) {
+				return
+			}
+			for i, n := 0, 1+r.Intn(3); i < n; i++ {
+				c.Tracef("gc")
+				_ = t.DeleteNodes()
+			}
+			c.Tracef("return to the saved content")
+			for _, k := range m.Keys() {
+				if _, ok := a[k]; !ok {
+					if err := wl.Upd(t, []byte(k), nil, 0); err != nil {
+						fail("", "return: delete failed: %v", err)
+						return
+					}
+				}
+			}
+			for _, k := range a.Keys() {
+				if e, ok := m[k]; !ok || string(e.Val) != string(a[k].Val) || e.W != a[k].W {
+					if err := wl.Upd(t, []byte(k), a[k].Val, a[k].W); err != nil {
+						fail("", "return: update failed: %v", err)
+						return
+					}
+				}
+			}
+			m = a
+			if !commit(lvl) {
+				return
+			}
+			if r.Intn(3) == 0 {
+				c.Tracef("gc")
+				_ = t.DeleteNodes()
+			}
+			c.Count("checkpoints_at_a_content_saved_before", 1)
+		}
 		// RollbackTrie is handed its checkpoint: half of those histories never call SaveRoot
 		savedRoot := via == "Rollback" || r.Intn(2) == 0
 		if savedRoot {
@@ -337,7 +377,7 @@ func init() {
 			return 24000
 		},
 		Run: runC13,
-		Floors: map[string]int64{"rollbacks": 20000, "rollback_via:Rollback": 8000, "rollback_via:RollbackTrie": 8000, "gc_between_commit_and_rollback": 8000, "change:unchanged-rewrite": 3000, "change:del-readd-identical": 3000,
+		Floors: map[string]int64{"checkpoints_at_a_content_saved_before": 2500, "rollbacks": 20000, "rollback_via:Rollback": 8000, "rollback_via:RollbackTrie": 8000, "gc_between_commit_and_rollback": 8000, "change:unchanged-rewrite": 3000, "change:del-readd-identical": 3000,
 			"change:new": 20000, "change:deleted": 5000, "post_rollback_gc_checks": 4000, "commits_after_rollback": 10000, "retried_batches_rolled_back": 4000, "rollbacks_to_a_copied_root": 3000, "empty_commits_before_rollback": 4000, "abandoned_batches_rolled_back": 2500, "gc_passes_on_the_uncommitted_batch": 5000, "batches_that_empty_the_trie": 800, "proofs_read_on_the_uncommitted_batch": 3000, "uncommitted_changes_on_top_of_the_committed_batch": 2000, "checkpoints_without_SaveRoot": 4000},
 		Assumptions: []string{"at most one GC pass between the commit and the rollback (the property's domain)"},
 	})
